@@ -26,6 +26,7 @@ SEL_FIELDS = [
     ("net.ipaddress", "ip"),
     ("uri", "u"),
     ("filesize", "size"),
+    ("path", "p"),
     ("record", "rec"),
     ("record[]", "recs"),
 ]
@@ -56,6 +57,7 @@ def record_values(draw):
         "ip": draw(st.sampled_from(["10.0.0.1", "10.1.2.3", "192.168.1.1", "::1", "2001:db8::1"])),
         "u": draw(st.sampled_from(["http://example.com/a/b.txt", "https://foo.bar/x", "ftp://h/", "a"])),
         "size": draw(st.sampled_from([0, 1, 1024, 5000])),
+        "p": draw(st.sampled_from(["/tmp/x", "a/b", "/etc/passwd", ""])),
         "rec": draw(st.one_of(st.none(), inner_values())),
         "recs": draw(st.lists(inner_values(), max_size=2)),
         "name": draw(st.sampled_from(["sel/rec", "other/type"])),
@@ -307,6 +309,15 @@ class G:
                 "(r.ip in net.ipnetwork('2001:db8::/32'))",
                 "(r.ip == '::1')",
                 "(r.ip != '10.1.2.3')",
+                # membership in a literal list is decided by ==, not by hash
+                "(r.ip in ['10.0.0.1', '10.1.2.3'])",
+                "(r.ip not in ['::1', '192.168.1.1'])",
+                "(r.ip in ('2001:db8::1', '::1'))",
+                "(r.p in ['/tmp/x', 'a/b'])",
+                "(r.p not in ['/etc/passwd'])",
+                "(r.p == '/tmp/x')",
+                "(r.u in ['https://foo.bar/x', 'a'])",
+                "(r.s in ['a', 'hello'] == True)" if False else "(r.sl in [['a'], []])",
             ])
         if k == "and":
             self.use("boolop:and")
